@@ -183,24 +183,28 @@ class Env:
         for k, v in s.kv.items():
             if not k.startswith("q:"):
                 continue
-            _, queue, prio, marker = k.split(":")
-            kind = {"n": "waiting", "d": "delayed", "dead": "dead"}[marker]
+            # (read from the right: names the pinned validators accept contain no ':'; if the tree under test lets one through, the
+            #  probe still says where things are instead of failing itself)
+            queue, prio, marker = k[2:].rsplit(":", 2)
+            kind = {"n": "waiting", "d": "delayed", "dead": "dead"}.get(marker, "garbled")
+            prio = int(prio) if prio.isdigit() else -1
             members = [(m, None) for m in v] if isinstance(v, list) else [(m, sc) for m, sc in v.items()]
             for m, sc in members:
                 short = m.decode()
-                topic, id_ = short.split(":")
+                topic, _, id_ = short.rpartition(":")
                 pl, params = details(queue, int(prio), short)
                 out.setdefault(id_, []).append(Place(kind, queue, None, pl, params, topic, int(prio),
                                                      None if sc is None else sc - vclock._EPOCH_TS))
         proc = s.kv.get("processing") or {}
         for m in proc:
             short = m.decode()
-            topic, id_ = short.split(":")
+            topic, _, id_ = short.rpartition(":")
             found = [k for k in hashes if k.endswith(":" + short)]
             if not found:
                 out.setdefault(id_, []).append(Place("held", "?", "ghost-no-hash", None, None, topic, None))
             for k in found:
-                _, queue, prio, _, _ = k.split(":")
+                queue, _, prio = k[2: len(k) - len(short) - 1].rpartition(":")
+                prio = int(prio) if prio.isdigit() else -1
                 pl, params = details(queue, int(prio), short)
                 out.setdefault(id_, []).append(Place("held", queue, None, pl, params, topic, int(prio)))
         return out
